@@ -29,7 +29,11 @@ class FakeQueue:
     def get(self, block=True, timeout=None):
         if not self.chunks:
             raise Done()
-        return self.chunks.pop(0)
+        c = self.chunks.pop(0)
+        if c is None:            # nothing arrives for the 5 s the reader waits: the wait times out
+            import queue
+            raise queue.Empty()
+        return c
 
 
 class Null:
@@ -94,6 +98,12 @@ def run_reader(chunks, line_limit=None):
 def frames_corpus(rng, rows_by_ty):
     good = c04.valid_corpus(rng, rows_by_ty, 14)
     good = [g for g in good if len(g) <= 600] + [g for g in good if len(g) > 600][:1]
+    # well-formed frames at the edges: a bare 20-byte header (known and unknown command), reserved flag bits set
+    def hdr(flags, code, n=20):
+        return bytes([1]) + n.to_bytes(3, "big") + bytes([flags]) + code.to_bytes(3, "big") + bytes(4) + (77).to_bytes(4, "big") + (78).to_bytes(4, "big")
+    good += [hdr(0x80, 280), hdr(0x00, 8388000), hdr(0x88, 280), hdr(0x8f, 272)]
+    if good and len(good[0]) >= 20:
+        good.append(good[0][:4] + bytes([good[0][4] | 0x08]) + good[0][5:])
     return good
 
 
@@ -150,14 +160,17 @@ def check(run):
         except Exception:   # noqa
             return False
 
-    def one(stream_frames, chunks, kind):
+    def one(stream_frames, chunks, kind, pauses=True):
         """stream_frames: [(bytes, role)] role in good|bad|len:<n>"""
+        if pauses and len(chunks) > 1 and (kind == "k-cut" or (kind == "1-cut" and len(chunks[0]) % 3 == 0)):
+            # the same reads with a silence (the reader's 5 s queue wait times out) before, between and after them
+            one(stream_frames, [x for c in chunks for x in (None, c)] + [None], kind + "+pauses", pauses=False)
         stream = b"".join(f for f, _ in stream_frames)
-        case = {"frames": [(len(f), r) for f, r in stream_frames], "chunks": [len(c) for c in chunks], "kind": kind,
+        case = {"frames": [(len(f), r) for f, r in stream_frames], "chunks": [(-1 if c is None else len(c)) for c in chunks], "kind": kind,
                 "stream": stream.hex()[:300]}
         dl, closed, left, spun = run_reader(chunks, line_limit=60 * len(stream) + 3000)
         got = [m.as_bytes() if False else None for m in dl]
-        run.count(1, [(stream[:80], tuple(len(c) for c in chunks))] if len(chunks) > 1 else [])
+        run.count(1, [(stream[:80], tuple(-1 if c is None else len(c) for c in chunks))] if len(chunks) > 1 else [])
         # oracle -----------------------------------------------------------------
         if spun:
             run.violation("progress", case, "reader spins without consuming input",
@@ -178,7 +191,7 @@ def check(run):
                               what="delivery of a stream of well-formed frames depends on how it was cut into reads")
         # model side: which frames are decodable is the implementation's own Message.from_bytes
         exp_deliv = [(m.header.command_code, m.header.hop_by_hop_identifier, m.header.length) for m in dl]
-        cases.append((stream, chunks, [f for f, r in stream_frames if decodes(f)], exp_deliv, closed, left, spun))
+        cases.append((stream, [c for c in chunks if c is not None], [f for f, r in stream_frames if decodes(f)], exp_deliv, closed, left, spun))
         meta.append(case)
 
     # streams of well-formed frames ------------------------------------------------
@@ -258,11 +271,14 @@ def check(run):
 def replay(r):
     c = r["case"]
     stream = bytes.fromhex(c["stream"])
-    if sum(c["chunks"]) != len(stream):
+    if sum(n for n in c["chunks"] if n >= 0) != len(stream):
         print("replay: stream truncated in the replay file; re-run ./check C05")
         return False
     chunks, i = [], 0
     for n in c["chunks"]:
+        if n < 0:
+            chunks.append(None)
+            continue
         chunks.append(stream[i:i + n])
         i += n
     dl, closed, left, spun = run_reader(chunks, line_limit=60 * len(stream) + 3000)
